@@ -15,7 +15,7 @@ RULE = ('(1) arbitrary text (Hypothesis strings over ZINC tokens and arbitrary c
         'closing bracket of a list/dict/nested grid removed, a column/meta/dict tag renamed to start with an upper-case '
         'letter or digit or to contain "-", a 3.0 document holding NA/list/dict/grid/XStr relabelled ver 2.0 - must raise '
         'ZincParseException, under single=False and single=True, also when the broken grid is the second grid of a document '
-        'whose first grid is well-formed. Non-trivial = the text keeps an intact version header (reaches the grammar) or is a class-3 '
+        'whose first grid is well-formed. (4) histories of 40 and 150 distinct version labels (documents and scalars, well-formed and malformed, 2.0/3.0 interleaved) must keep that contract. Non-trivial = the text keeps an intact version header (reaches the grammar) or is a class-3 '
         'breaker; distinct by text.')
 ASSUMPTIONS = ['input is str (charset errors of bytes input are not this property)', 'bracket nesting <= 3',
                'normal parses of the generated inputs take milliseconds; only a case that exceeds 20 s and then 90 s on a second attempt is reported as non-terminating']
@@ -171,6 +171,43 @@ def check_scalar_text(text, ver):
     return 'parsed'
 
 
+def version_labels(n, order):
+    out = []
+    for i in range(n):
+        a, b = (2, 3, 1, 4)[i % 4], i // 4
+        out.append(['%d.%d' % (a, b), '%d.0.%d' % (a, b + 1), '%d.%da' % (a, b), '%d.%d.%d.1' % (a, b % 3, b)][(i // 16) % 4])
+    seen = []
+    for l in out:
+        if l not in seen:
+            seen.append(l)
+    return seen[::-1] if order else seen
+
+
+def check_version_history(case, acc=None):
+    """Whatever the reader keeps per version label (grammars, nearest-version decisions) must not wear out: after documents
+    and scalars under many distinct labels have been read, malformed and well-formed texts under the next label and under
+    2.0 / 3.0 are still answered with a grid or ZincParseException / ValueError, never with another exception."""
+    labels = version_labels(case['version-history'], case['order'])
+    n = 0
+    good = ['a,b\n1,"x"\n', 'a\nM\n']
+    bad = ['a,b\n1,"x\n', 'a\n1,2\n', 'a b\n1\n', 'a\n1e\n']
+    scal = ['1', '"x"', '"x', '2020-13-01', '@r', '`u']
+    for i, lab in enumerate(labels + ['2.0', '3.0', '2.0', '3.0']):
+        for body in (good[i % 2], bad[i % 4]):
+            check_text('ver:"%s"\n%s' % (lab, body), acc)
+            n += 1
+        for s in (scal[i % 6], scal[(i + 3) % 6]):
+            check_scalar_text(s, lab)
+            n += 1
+        if i % 10 == 9:
+            for lab0 in ('2.0', '3.0'):
+                check_text('ver:"%s"\n%s' % (lab0, good[0]), acc)
+                check_scalar_text('"x', lab0)
+                check_scalar_text('5kW', lab0)
+                n += 3
+    return n
+
+
 # ---------------------------------------------------------------- corpus
 
 def corpus(n):
@@ -283,6 +320,7 @@ def plan(tier, seed, excl):
     t += [('splices', {'ndocs': ndocs, 'shard': i, 'of': 8}) for i in range(8)]
     t += [('breakers', {'shard': i, 'of': 4}) for i in range(4)]
     t.append(('boundary-scalars', {}))
+    t += [('version-labels', {'n': n, 'order': o}) for n in (40, 150) for o in (0, 1)]
     t += [('random-text', {'shard': i, 'n': 400 if q else 12000}) for i in range(8)]
     t += [('random-scalar', {'shard': i, 'n': 2500 if q else 60000}) for i in range(4)]
     # coverage-guided campaigns (atheris/libFuzzer) with the same oracle inside the target; one starts from an empty corpus
@@ -399,6 +437,15 @@ def _run(part, args, env, acc, tier):
                     if n % 1501 == 1:
                         acc.sample({'breaker': what, 'text': t})
         acc.bulk(n, n)
+    elif part == 'version-labels':
+        case = {'version-history': args['n'], 'order': args['order']}
+        try:
+            n = check_version_history(case, acc)
+        except Violation as v:
+            acc.violation(v)
+            n = 0
+        acc.bulk(n, n, labels=('version-labels',))
+        acc.sample(case)
     elif part == 'boundary-scalars':
         n = 0
         for t in BOUNDARY_SCALARS:
@@ -461,6 +508,8 @@ def _run(part, args, env, acc, tier):
 
 
 def replay(stage, case):
+    if 'version-history' in case:
+        return check_version_history(case)
     if 'scalar' in case:
         check_scalar_text(case['scalar'], case['ver'])
     else:
